@@ -7,7 +7,8 @@ Reads (with `ast`, fail closed: any shape this file does not expect raises):
                           ProcessGroupConfig / EventListenerPoolConfig / FastCGIGroupConfig
                           __eq__: isinstance guard, attribute names compared, delegation,
                           Config.__ne__ (= not __eq__), the class parents
-  supervisor/datatypes.py SocketConfig.__eq__ / __ne__, parents of the socket classes
+  supervisor/datatypes.py SocketConfig.__eq__ / __ne__ (attributes compared directly and
+                          attributes compared through getattr(x, a, None)), parents of the socket classes
   supervisor/xmlrpc.py    class Faults
   supervisor/states.py    class ProcessStates, STOPPED_STATES, RUNNING_STATES
 Writes coq/C15/Gen_fields.v.
@@ -205,8 +206,27 @@ def _cmp_atom(node, op_type):
     return node.left.attr
 
 
-def _conj_eq(cls):
-    """__eq__ of a group/socket config class -> (isinstance class, [attrs], delegate class or None)"""
+def _dflt_atom(node):
+    """`getattr(self, 'a', None) != getattr(other, 'a', None)` -> a, else None"""
+    if not (isinstance(node, ast.Compare) and len(node.ops) == 1 and isinstance(node.ops[0], ast.NotEq)):
+        return None
+    sides = []
+    for who, c in (('self', node.left), ('other', node.comparators[0])):
+        ok = (isinstance(c, ast.Call) and isinstance(c.func, ast.Name) and c.func.id == 'getattr' and not c.keywords
+              and len(c.args) == 3 and isinstance(c.args[0], ast.Name) and c.args[0].id == who
+              and isinstance(c.args[1], ast.Constant) and isinstance(c.args[1].value, str)
+              and isinstance(c.args[2], ast.Constant) and c.args[2].value is None)
+        if not ok:
+            return None
+        sides.append(c.args[1].value)
+    _need(sides[0] == sides[1], 'getattr comparison of two different attributes at line %d' % node.lineno)
+    return sides[0]
+
+
+def _conj_eq(cls, dflt=None):
+    """__eq__ of a group/socket config class -> (isinstance class, [attrs], delegate class or None).
+    With a list `dflt`, atoms `getattr(self, 'a', None) != getattr(other, 'a', None)` are accepted
+    too and their attribute names appended to it."""
     eq = _find_method(cls, '__eq__')
     _args_are(eq, ['self', 'other'])
     b = _body(eq)
@@ -218,7 +238,12 @@ def _conj_eq(cls):
     while rest:
         st = rest.pop(0)
         if isinstance(st, ast.If) and not st.orelse and len(st.body) == 1 and _is_return_const(st.body[0], False):
-            attrs.append(_cmp_atom(st.test, ast.NotEq))
+            d = _dflt_atom(st.test) if dflt is not None else None
+            if d is not None:
+                _need(d not in dflt and d not in attrs, '%s.__eq__ compares %s twice' % (cls.name, d))
+                dflt.append(d)
+            else:
+                attrs.append(_cmp_atom(st.test, ast.NotEq))
             continue
         if isinstance(st, ast.If) and not st.orelse and len(st.body) == 1 and _is_return_const(st.body[0], True):
             # if (A == A') and (...): return True ; return False
@@ -310,8 +335,10 @@ def extract():
         groups[cname] = _conj_eq(cls)
         _need(_find_method(cls, '__ne__', required=False) is None, '%s overrides __ne__' % cname)
     sock_cls = _find_class(dt, 'SocketConfig')
-    sock = _conj_eq(sock_cls)
+    sock_dflt = []
+    sock = _conj_eq(sock_cls, sock_dflt)
     _need(sock[2] is None, 'SocketConfig.__eq__ delegates')
+    _need(not set(sock_dflt) & set(sock[1]), 'SocketConfig.__eq__ compares an attribute twice')
     _ne_is_not_eq(sock_cls)
     for sub in ('InetStreamSocketConfig', 'UnixStreamSocketConfig'):
         c = _find_class(dt, sub)
@@ -326,6 +353,7 @@ def extract():
     states = dict(_int_class(st_mod, 'ProcessStates'))
     return {
         'lists': lists, 'init_lists': init_lists, 'eq_lists': eq_lists, 'groups': groups, 'sock': sock,
+        'sock_dflt': sock_dflt,
         'parents': parents, 'faults': faults, 'states': states,
         'stopped_states': _state_tuple(st_mod, 'STOPPED_STATES', states),
         'running_states': _state_tuple(st_mod, 'RUNNING_STATES', states),
@@ -358,7 +386,10 @@ def render(x):
         w('Definition %s_eq_super : option string := %s.' % (s, ('Some %s' % _cstr(delegate)) if delegate else 'None'))
     isinst, attrs, _ = x['sock']
     w('Definition sock_eq_isinstance : string := %s.' % _cstr(isinst))
+    w('(* compared as self.a != other.a *)')
     w('Definition sock_eq_attrs : list string := %s.' % _clist(attrs))
+    w('(* compared as getattr(self, a, None) != getattr(other, a, None) *)')
+    w('Definition sock_eq_attrs_dflt : list string := %s.' % _clist(x['sock_dflt']))
     w('')
     w('(* class -> its single base class *)')
     w('Definition class_parent : list (string * string) :=\n  [%s].' % ';\n   '.join(
